@@ -7,7 +7,7 @@ import ast
 from typing import Dict, List, Optional, Set
 
 from ..effects import Analyzer, _walk_local
-from ..interp import Interp, PyFunc, Raised, Unsupported
+from ..interp import Interp, PyFunc, Raised, Unsupported, Obj
 from ..poly import Poly, Rat
 from ..model import staged, AnalysisError, FuncInfo, Model, src, walk_no_nested
 
@@ -397,11 +397,17 @@ def _r3(model, rep):
         log = []
 
         class Y:
+            skv_isarray = True
+
             def __init__(self, base):
                 self.base = base
 
             def skv_setitem(self, ix, v):
                 log.append(("set", ix, v))
+
+            def skv_getitem(self, ix):
+                # x[:, None]: the same values with an extra axis
+                return self
 
         class XV:
             skv_isarray = True
@@ -409,20 +415,33 @@ def _r3(model, rep):
             def skv_getattr(self, nm):
                 if nm == "copy":
                     return PyFunc(lambda a, k, n: Y("copy-of-x"))
+                if nm == "astype":
+                    # astype copies unless copy=False is passed
+                    return PyFunc(lambda a, k, n: Y("copy-of-x")
+                                  if k.get("copy", True) is not False
+                                  else self)
                 raise Unsupported("x." + nm)
 
         def hook(interp, nm, args, kwargs, node):
+            if nm in ("numpy.result_type", "numpy.promote_types"):
+                return "DT"
             if nm == "numpy.tile":
                 return args[0]
             if nm == "numpy.add.at":
                 log.append(("add.at", args[0], args[1]))
                 return None
             return NotImplemented
-        solver = PyFunc(lambda a, k, n: ("SOL", "X") if name ==
-                        "solve_eigen" else "SOL")
-
         class SolX:
-            shape = (3, 2)
+            skv_isarray = True
+
+            def skv_getattr(self, nm):
+                if nm == "shape":
+                    return (Poly.sym("n"), Poly.sym("k"))
+                if nm == "T":
+                    return self
+                raise Unsupported("X." + nm)
+        solver = PyFunc(lambda a, k, n: ("L", SolX()) if name ==
+                        "solve_eigen" else "SOL")
         xs = XV()
         args = ["A", "b", xs, "I", solver]
         try:
@@ -514,7 +533,7 @@ def _penalize_run(model, rep, fn):
             self.stores.append((ix, v))
 
         def skv_getattr(self, nm):
-            if nm == "copy":
+            if nm == "copy" or nm == "astype":
                 return PyFunc(lambda a, k, n: Vec("copy of " + self.name,
                                                   True))
             raise Unsupported(f"{self.name}.{nm}")
@@ -582,8 +601,12 @@ def _penalize_run(model, rep, fn):
                         return ("quot", self.ix, o[1])
                 raise Unsupported("arithmetic on x[D]")
         x = XV("x", False)
+        def phook(interp, nm, args, kwargs, node):
+            if nm in ("numpy.result_type", "numpy.promote_types"):
+                return "DT"
+            return NotImplemented
         try:
-            it = Interp(model)
+            it = Interp(model, call_hook=phook)
             it.overrides[f"{U}._init_bc"] = PyFunc(
                 lambda a, k, n: (a[1], a[2], IS, DS))
             r = it.call(fn, [A, b, x, None, Ix("Dgiven"), eps, ow], {})
@@ -761,6 +784,368 @@ def _r5(model, rep):
     rep.ok(R5, "bc-helpers:no-absolute-tolerance",
            "no np.allclose / np.isclose on operand values in the boundary "
            "condition helpers")
+
+
+def _lossy_stores(model, rep):
+    """(c) A buffer that is a copy of one operand takes that operand's
+    dtype; numpy casts whatever is stored into it *silently* (float -> int
+    truncates, complex -> float drops the imaginary part with a warning at
+    most).  Every item store (buf[ix] = v, np.add.at(buf, ix, v)) of an
+    array value that does not come from the same operand - the solver's
+    result, the prescribed values x - needs the buffer allocated in a common
+    type (np.result_type / np.promote_types in its definition).  Scalars
+    (constants, parameters annotated float) are exempt."""
+    R5 = "C05-R5"
+    nstores = 0
+    for name in dict.fromkeys(BC_FUNCS):
+        try:
+            fn = model.func(U, name)
+        except AnalysisError:
+            continue
+        a = fn.node.args
+        scalars = {x.arg for x in a.posonlyargs + a.args + a.kwonlyargs
+                   if x.annotation is not None and src(x.annotation) in (
+                       "float", "int", "bool", "Optional[float]", "str")}
+        params = set(fn.params())
+        defs: Dict[str, List[ast.Assign]] = {}
+        for n in walk_no_nested(fn.node):
+            if isinstance(n, ast.Assign):
+                for t in n.targets:
+                    for x in (t.elts if isinstance(t, ast.Tuple) else [t]):
+                        if isinstance(x, ast.Name):
+                            defs.setdefault(x.id, []).append(n)
+
+        def origin(e):
+            """operand the expression is a copy of, or None"""
+            if isinstance(e, ast.IfExp):
+                o1, o2 = origin(e.body), origin(e.orelse)
+                return o1 if o1 == o2 else None
+            if isinstance(e, ast.Name) and e.id in params:
+                return e.id
+            if isinstance(e, ast.Subscript):
+                return origin(e.value)
+            if isinstance(e, ast.Call):
+                f = e.func
+                if isinstance(f, ast.Attribute) and f.attr in (
+                        "copy", "astype", "diagonal", "toarray"):
+                    return origin(f.value)
+                if src(f) in ("np.tile", "np.array", "np.copy",
+                              "np.asarray") and e.args:
+                    return origin(e.args[0])
+            return None
+
+        def widened(e):
+            return any(isinstance(c, ast.Call) and src(c.func).split(".")[-1]
+                       in ("result_type", "promote_types", "common_type",
+                           "find_common_type") for c in ast.walk(e))
+
+        def foreign(v, own):
+            """does the stored value carry array data not from `own`?"""
+            for x in ast.walk(v):
+                if isinstance(x, ast.Name) and isinstance(x.ctx, ast.Load):
+                    if x.id in scalars or x.id == own or \
+                            x.id in ("np", "numpy"):
+                        continue
+                    if x.id in params:
+                        return x.id
+                    if x.id in defs:
+                        for d in defs[x.id]:
+                            if isinstance(d.value, ast.Call) and \
+                                    origin(d.value) != own:
+                                return f"{x.id} = {src(d.value)[:30]}"
+                            f_ = foreign(d.value, own) if not isinstance(
+                                d.value, ast.Call) else None
+                            if f_:
+                                return f_
+                if isinstance(x, ast.Call) and isinstance(x.func, ast.Name) \
+                        and x.func.id in params:
+                    return f"{x.func.id}(...)"
+            return None
+        stores = []
+        for n in walk_no_nested(fn.node):
+            if isinstance(n, ast.Assign) and len(n.targets) == 1 and \
+                    isinstance(n.targets[0], ast.Subscript) and \
+                    isinstance(n.targets[0].value, ast.Name):
+                stores.append((n.targets[0].value.id, n.value, n))
+            elif isinstance(n, ast.Call) and src(n.func) in (
+                    "np.add.at", "numpy.add.at") and len(n.args) == 3 and \
+                    isinstance(n.args[0], ast.Name):
+                stores.append((n.args[0].id, n.args[2], n))
+        seen = set()
+        for buf, val, node in stores:
+            dl = sorted((d for d in defs.get(buf, [])
+                         if d.lineno < node.lineno), key=lambda d: d.lineno)
+            if not dl:
+                continue
+            d = dl[-1]
+            own = origin(d.value)
+            if own is None:
+                continue
+            who = foreign(val, own)
+            if who is None:
+                continue
+            nstores += 1
+            cons = f"{name}:{buf}:holds-stored-values"
+            if cons in seen:
+                continue
+            seen.add(cons)
+            if widened(d.value):
+                rep.ok(R5, cons, f"'{buf}' is allocated in a common type of "
+                                 f"'{own}' and what is stored into it")
+            else:
+                rep.fail(R5, F, name, cons,
+                         f"'{src(d)[:60]}' gives '{buf}' the dtype of "
+                         f"'{own}', then '{src(node)[:50]}' stores values "
+                         f"from {who}: numpy casts them to that dtype "
+                         f"silently (a float solution into an integer x is "
+                         f"truncated, complex values into a real vector "
+                         f"lose their imaginary part) and the result no "
+                         f"longer satisfies the equations", node.lineno)
+    if nstores < 4:
+        raise AnalysisError(f"only {nstores} stores of foreign values into "
+                            f"operand copies found in the boundary "
+                            f"condition helpers, 4 confirmed by hand")
+
+
+def _constrained_set_repeat_free(model, rep):
+    """condense contracts over the constrained set (A[I][:, D] @ x[D]): an
+    index listed twice is subtracted twice.  enforce / penalize only store
+    per index, so a repeated index is harmless there - the siblings would
+    disagree.  A user-supplied index array may list an index twice
+    (np.hstack of the DOFs of four sides lists the corners twice), so the D
+    that _init_bc hands out must be normalised on every path: _init_bc is
+    interpreted with D given as an array with repeats, as a view and as a
+    dictionary of views."""
+    R2 = "C05-R2"
+    fn = model.func(U, "_init_bc")
+
+    class Ix:
+        skv_isarray = True
+
+        def __init__(self, name, unique, types=("numpy.ndarray",)):
+            self.name, self.unique, self.skv_types = name, unique, types
+
+        def skv_getattr(self, nm):
+            if nm == "flatten" and "skfem.assembly.dofs.DofsView" in \
+                    self.skv_types:
+                # DofsView.flatten returns np.unique(...) (checked above)
+                return PyFunc(lambda a, k, n: Ix(f"flatten({self.name})",
+                                                 True))
+            if nm == "shape":
+                return (Poly.sym("n"),)
+            if nm == "dtype":
+                return "DT"
+            raise Unsupported(f"{self.name}.{nm}")
+
+    def hook(interp, name, args, kwargs, node):
+        if name in ("numpy.unique", "numpy.union1d", "numpy.setdiff1d",
+                    "numpy.intersect1d"):
+            return Ix(f"{name.split('.')[-1]}(...)", True)
+        if name == "numpy.arange":
+            return Ix("arange", True)
+        if name in ("numpy.concatenate", "numpy.hstack"):
+            return Ix("joined", False)
+        if name in ("numpy.zeros", "numpy.zeros_like"):
+            return Ix("zeros", False)
+        if name in ("numpy.sort",) and isinstance(args[0], Ix):
+            return Ix(f"sort({args[0].name})", args[0].unique)
+        return NotImplemented
+
+    class AM:
+        skv_types = ("scipy.sparse.spmatrix",)
+
+        def skv_getattr(self, nm):
+            if nm == "shape":
+                return (Poly.sym("n"), Poly.sym("n"))
+            if nm == "dtype":
+                return "DT"
+            raise Unsupported("A." + nm)
+    vcls = model.cls("skfem.assembly.dofs", "DofsView")
+
+    def view(nm):
+        # DofsView.flatten returns np.unique(...) (checked above)
+        return Obj(vcls, {"flatten": PyFunc(
+            lambda a, k, n: Ix(f"flatten({nm})", True))})
+    cases = [("index array", lambda: Ix("user array", False)),
+             ("DofsView", lambda: view("view")),
+             ("dict of views", lambda: {"a": view("view a"),
+                                        "b": view("view b")})]
+    for label, mk in cases:
+        try:
+            r = Interp(model, call_hook=hook).call(
+                fn, [AM(), Ix("b", False), Ix("x", False), None, mk()], {})
+        except (Unsupported, Raised) as e:
+            raise AnalysisError(f"_init_bc(D={label}): {e}")
+        D = r[3] if isinstance(r, tuple) and len(r) == 4 else None
+        if not isinstance(D, Ix):
+            raise AnalysisError(f"_init_bc(D={label}): returned {r!r}")
+        cons = f"_init_bc:D-repeat-free[{label}]"
+        if D.unique:
+            rep.ok(R2, cons, f"the constrained set handed out is {D.name}: "
+                             f"no index is listed twice")
+        else:
+            rep.fail(R2, F, "_init_bc", cons,
+                     f"D given as {label} is handed out as '{D.name}' - "
+                     f"with the repeats it was given with; condense "
+                     f"subtracts A[I][:, D] @ x[D], i.e. the column of a "
+                     f"repeated index twice, while enforce / penalize treat "
+                     f"D as a set (normalise with np.unique)", fn.lineno)
+
+
+def _storage_format(model, rep):
+    """enforce zeroes rows through the raw CSR arrays (indptr / data).  The
+    same arrays of a CSC matrix (A.T of any assembled matrix, A.tocsc())
+    describe *columns*: the arithmetic then wipes the columns of D in the
+    kept rows and leaves the constrained rows standing, silently.  Every
+    read of .indptr / .indices of a matrix that comes from a parameter needs
+    its format established first: a .tocsr() in its definition chain, or a
+    test of .format / isspmatrix_csr earlier in the function."""
+    R3 = "C05-R3"
+    n = 0
+    for name in dict.fromkeys(BC_FUNCS):
+        try:
+            fn = model.func(U, name)
+        except AnalysisError:
+            continue
+        params = set(fn.params())
+        defs: Dict[str, List[ast.Assign]] = {}
+        for x in walk_no_nested(fn.node):
+            if isinstance(x, ast.Assign):
+                for t in x.targets:
+                    if isinstance(t, ast.Name):
+                        defs.setdefault(t.id, []).append(x)
+        seen = set()
+        for x in walk_no_nested(fn.node):
+            if not (isinstance(x, ast.Attribute) and x.attr in (
+                    "indptr", "indices") and isinstance(x.value, ast.Name)):
+                continue
+            nm = x.value.id
+            chain, todo, from_param = [], [nm], False
+            while todo:
+                c = todo.pop()
+                if c in params:
+                    from_param = True
+                for d in defs.get(c, []):
+                    if d.lineno < x.lineno and d not in chain:
+                        chain.append(d)
+                        todo += [y.id for y in ast.walk(d.value)
+                                 if isinstance(y, ast.Name) and y.id != c]
+            if not from_param or nm in seen:
+                continue
+            seen.add(nm)
+            n += 1
+            conv = any(isinstance(c, ast.Call) and isinstance(
+                c.func, ast.Attribute) and c.func.attr == "tocsr"
+                for d in chain for c in ast.walk(d.value))
+            tested = any(
+                (isinstance(y, ast.Attribute) and y.attr in (
+                    "format", "getformat")) or (
+                    isinstance(y, ast.Call) and src(y.func).split(".")[-1]
+                    in ("isspmatrix_csr", "getformat"))
+                for y in walk_no_nested(fn.node)
+                if getattr(y, "lineno", 10 ** 9) < x.lineno)
+            cons = f"{name}:{nm}.{x.attr}:csr-established"
+            if conv or tested:
+                rep.ok(R3, cons, "row-wise (CSR) storage is established "
+                       "before the raw index arrays are read")
+            else:
+                rep.fail(R3, F, name, cons,
+                         f"'{nm}.{x.attr}' is read as the row pointer of "
+                         f"'{nm}', which is the caller's matrix (or its "
+                         f"copy) in whatever format it came: for a CSC "
+                         f"matrix (A.T, A.tocsc()) the same arrays describe "
+                         f"columns, so the columns of D are zeroed and the "
+                         f"constrained rows are left standing",
+                         x.lineno)
+    if n < 1:
+        raise AnalysisError("no raw CSR access found in the boundary "
+                            "condition helpers (enforce: confirmed by hand)")
+
+
+def _data_denominators(model, rep):
+    """A divisor computed from the *values* of an operand (a norm, max or
+    sum of matrix entries) can be zero for admissible input: constrained
+    rows without stored entries (the property names them), a pinned
+    pressure DOF of a saddle-point matrix.  1e-10 / 0 is inf, the penalty
+    1 / inf is 0 and the constraint silently disappears.  Such a divisor
+    needs a guard (a comparison with 0, np.where, max(..., tiny)) before the
+    division."""
+    R5 = "C05-R5"
+    REDUCE = {"norm", "max", "min", "sum", "mean", "amax", "amin", "abs"}
+    n = 0
+    for name in dict.fromkeys(BC_FUNCS):
+        try:
+            fn = model.func(U, name)
+        except AnalysisError:
+            continue
+        a = fn.node.args
+        scalars = {x.arg for x in a.posonlyargs + a.args + a.kwonlyargs
+                   if x.annotation is not None and src(x.annotation) in (
+                       "float", "int", "bool", "Optional[float]")}
+        defs: Dict[str, List[ast.Assign]] = {}
+        for x in walk_no_nested(fn.node):
+            if isinstance(x, ast.Assign):
+                for t in x.targets:
+                    if isinstance(t, ast.Name):
+                        defs.setdefault(t.id, []).append(x)
+
+        def data_reduction(e):
+            """a reduction call over array data inside e (directly)"""
+            for c in ast.walk(e):
+                if isinstance(c, ast.Call):
+                    last = src(c.func).split(".")[-1]
+                    if last in REDUCE and (c.args or isinstance(
+                            c.func, ast.Attribute)):
+                        return c
+            return None
+        for x in walk_no_nested(fn.node):
+            if not (isinstance(x, ast.BinOp) and isinstance(x.op, ast.Div)):
+                continue
+            den = x.right
+            red = data_reduction(den)
+            if red is None:
+                continue
+            n += 1
+            # guard: the reduction's value is compared / clamped somewhere
+            # in the function before use
+            text = src(red)
+            guarded = False
+            for y in walk_no_nested(fn.node):
+                if isinstance(y, ast.Compare) and text in src(y) and \
+                        not any(isinstance(o, (ast.Is, ast.IsNot))
+                                for o in y.ops):
+                    guarded = True
+                if isinstance(y, ast.Call) and src(y.func).split(".")[-1] \
+                        in ("where", "maximum", "max", "clip") and \
+                        y is not red and text in src(y) and \
+                        src(y) != text:
+                    guarded = True
+            # or the reduction is first bound to a name that is tested
+            for nm, dl in defs.items():
+                if any(text in src(d.value) and not any(
+                        isinstance(z, ast.BinOp) and isinstance(z.op, ast.Div)
+                        for z in ast.walk(d.value)) for d in dl):
+                    for y in walk_no_nested(fn.node):
+                        if isinstance(y, ast.Compare) and not any(
+                                isinstance(o, (ast.Is, ast.IsNot))
+                                for o in y.ops) and any(
+                                isinstance(z, ast.Name) and z.id == nm
+                                for z in ast.walk(y)):
+                            guarded = True
+            cons = f"{name}:divisor[{text[:40]}]"
+            if guarded:
+                rep.ok(R5, cons, "the data-dependent divisor is tested "
+                       "against zero before the division")
+            else:
+                rep.fail(R5, F, name, cons,
+                         f"'{src(x)[:70]}' divides by a quantity computed "
+                         f"from operand values that is zero for admissible "
+                         f"input (constrained rows without stored entries, "
+                         f"a zero diagonal block): the quotient is inf, its "
+                         f"reciprocal 0, and the constraint is silently not "
+                         f"imposed", x.lineno)
+    # also divisions by a name bound to such a reduction
+    rep.units("data-dependent divisors in the BC helpers", n)
 
 
 def _verdict(rep, rule, ok, cons, okmsg, qual, badmsg, line):
@@ -942,7 +1327,10 @@ def run(model: Model, rep, tier: str) -> None:
     rep.rule("C05-R5", "the expansion vector can hold the solution "
              "(dtype of the system); no absolute tolerance on operand "
              "values")
-    staged(lambda: _r5(model, rep),
+    staged(lambda: _r5(model, rep), lambda: _lossy_stores(model, rep),
+           lambda: _constrained_set_repeat_free(model, rep),
+           lambda: _storage_format(model, rep),
+           lambda: _data_denominators(model, rep),
            lambda: _r1(model, an, rep), lambda: _r2(model, rep),
            lambda: _r3(model, rep), lambda: _r4(model, rep))
     rep.require_min("C05-R1", 30)
@@ -952,6 +1340,34 @@ def run(model: Model, rep, tier: str) -> None:
 
 _U = "skfem/utils.py"
 MUTANTS = [
+    ("solve_linear expands into a plain copy of x again",
+     (_U, "        y = x.astype(np.result_type(x, sol))\n",
+      "        y = x.copy()\n"), "C05-R5"),
+    ("solve_eigen expands into a plain copy of x again",
+     (_U, "        y = np.tile(x.astype(np.result_type(x, X))[:, None],\n"
+      "                    (1, X.shape[1]))",
+      "        y = np.tile(x.copy()[:, None], (1, X.shape[1]))"), "C05-R5"),
+    ("enforce writes the prescribed values into a plain copy of b",
+     (_U, "            bout = b if overwrite else b.astype(np.result_type("
+      "b, x))", "            bout = b if overwrite else b.copy()"),
+     "C05-R5"),
+    ("constrained index arrays are used as given again",
+     (_U, "        D = np.unique(D)  # an index listed twice is constrained "
+      "once\n", ""), "C05-R2"),
+    ("enforce reads the row pointer of whatever format it is given",
+     (_U, "    if A.format != 'csr':\n        # rows are zeroed through the "
+      "CSR index arrays\n        if overwrite:\n            raise ValueError("
+      "\"overwrite=True requires a CSR matrix.\")\n        Aout = A.tocsr()\n"
+      "    else:\n        Aout = A if overwrite else A.copy()\n",
+      "    Aout = A if overwrite else A.copy()\n"), "C05-R3"),
+    ("penalize divides by the norm of the constrained diagonal unguarded",
+     (_U, "        scale = np.linalg.norm(d[D], np.inf) if len(D) > 0 else "
+      "0.\n        if scale == 0.:\n            # constrained rows without "
+      "(diagonal) entries\n            scale = abs(Aout).max() if Aout.nnz "
+      "> 0 else 0.\n        if scale == 0.:\n            scale = 1.\n"
+      "        epsilon = 1e-10 / float(scale)",
+      "        epsilon = 1e-10 / np.linalg.norm(d[D], np.inf).astype(float)"),
+     "C05-R5"),
     ("omitted prescribed values default to a float vector",
      ("skfem/utils.py", "        x = np.zeros(A.shape[0], dtype=A.dtype)",
       "        x = np.zeros(A.shape[0])"), "C05-R5"),
@@ -959,25 +1375,21 @@ MUTANTS = [
      ("skfem/utils.py", "            bout = b[I] - A[I][:, D] @ x[D]\n",
       "            bout = b[I]\n            if not np.allclose(x[D], 0.):\n"
       "                bout = bout - A[I][:, D] @ x[D]\n"), "C05-R5"),
-    ("penalize: default penalty computed per row",
-     ("skfem/utils.py", "np.linalg.norm(d[D], np.inf).astype(float)",
-      "np.abs(d[D]).astype(float)"), "C05-R3"),
     ("enforce: matrix copy dropped",
      (_U, "    Aout = A if overwrite else A.copy()\n\n    # set rows on lhs "
       "to zero", "    Aout = A\n\n    # set rows on lhs to zero"), "C05-R1"),
     ("enforce: right-hand side copy dropped",
-     (_U, "            bout = b if overwrite else b.copy()\n            "
-      "bout[D] = x[D]", "            bout = b\n            bout[D] = x[D]"),
-     "C05-R1"),
+     (_U, "            bout = b if overwrite else b.astype(np.result_type("
+      "b, x))\n            bout[D] = x[D]",
+      "            bout = b\n            bout[D] = x[D]"), "C05-R1"),
     ("penalize: overwrite test inverted",
-     (_U, "    bout = b if overwrite else b.copy()\n    # Nothing needs",
-      "    bout = b.copy() if overwrite else b\n    # Nothing needs"),
-     "C05-R1"),
+     (_U, "    bout = b if overwrite else b.astype(np.result_type(b, x))\n"
+      "    bout[D] = x[D] / epsilon",
+      "    bout = b.astype(np.result_type(b, x)) if overwrite else b\n"
+      "    bout[D] = x[D] / epsilon"), "C05-R1"),
     ("solve_linear expands into the caller's x",
-     (_U, "        y = x.copy()\n        if isinstance(I, tuple):\n"
-      "            np.add.at(y, I[0], I[1](solver(A, b, **kwargs)))",
-      "        y = x\n        if isinstance(I, tuple):\n"
-      "            np.add.at(y, I[0], I[1](solver(A, b, **kwargs)))"),
+     (_U, "        y = x.astype(np.result_type(x, sol))\n",
+      "        y = x.astype(np.result_type(x, sol), copy=False)\n"),
      "C05-R1"),
     ("_init_bc returns the index sets exchanged",
      (_U, "    return b, x, I, D\n", "    return b, x, D, I\n"), "C05-R2"),
@@ -1005,8 +1417,8 @@ MUTANTS = [
      (_U, "            bout = b[I][:, I]", "            bout = b[I]"),
      "C05-R3"),
     ("solve_linear: solution written at the wrong name",
-     (_U, "            y[I] = solver(A, b, **kwargs)",
-      "            y[:len(I)] = solver(A, b, **kwargs)"), "C05-R3"),
+     (_U, "            y[I] = sol\n        return y",
+      "            y[:len(I)] = sol\n        return y"), "C05-R3"),
     ("enforce: right-hand side receives the kept values",
      (_U, "            bout[D] = x[D]", "            bout[D] = x[I]"),
      "C05-R3"),
@@ -1029,20 +1441,23 @@ MUTANTS = [
       "\n"), None),
 ]
 TWINS = [
-    ("penalize: default penalty from the largest absolute diagonal",
-     ("skfem/utils.py", "np.linalg.norm(d[D], np.inf).astype(float)",
-      "float(np.abs(d[D]).max())")),
-    ("enforce: explicit branch instead of the conditional expression",
-     (_U, "            bout = b if overwrite else b.copy()\n            "
-      "bout[D] = x[D]",
-      "            bout = b if overwrite else b.copy()\n            "
-      "bout[D] = x[D]\n            bout = bout")),
+    ("penalize: default scale from the largest absolute diagonal",
+     (_U, "        scale = np.linalg.norm(d[D], np.inf) if len(D) > 0 else "
+      "0.", "        scale = float(np.abs(d[D]).max()) if len(D) > 0 else "
+      "0.")),
+    ("enforce: common type spelled with promote_types",
+     (_U, "            bout = b if overwrite else b.astype(np.result_type("
+      "b, x))", "            bout = b if overwrite else b.astype("
+      "np.promote_types(b.dtype, x.dtype))")),
     ("_init_bc: numpy spelled out",
      (_U, "        D = np.setdiff1d(np.arange(A.shape[0], dtype=np.int32), "
       "I)", "        D = np.setdiff1d(np.arange(A.shape[0]), I)")),
-    ("solve_linear: copy via np.array",
-     (_U, "        y = x.copy()\n        if isinstance(I, tuple):\n"
-      "            np.add.at(y, I[0], I[1](solver(A, b, **kwargs)))",
-      "        y = 1 * x.copy()\n        if isinstance(I, tuple):\n"
-      "            np.add.at(y, I[0], I[1](solver(A, b, **kwargs)))")),
+    ("enforce: format established with isspmatrix_csr",
+     (_U, "    if A.format != 'csr':", "    if not isspmatrix_csr(A):")),
+    ("_init_bc: given constrained set normalised after the complement",
+     (_U, "        D = np.unique(D)  # an index listed twice is constrained "
+      "once\n        I = np.setdiff1d(np.arange(A.shape[0], dtype=np.int32),"
+      " D)\n",
+      "        I = np.setdiff1d(np.arange(A.shape[0], dtype=np.int32), D)\n"
+      "        D = np.unique(D)\n")),
 ]
